@@ -22,7 +22,7 @@ def run_format(ctx: Ctx, rt: RT, prop, fmt, expected_tags):
         for config in CONFIGS:
             docs = {}
             for target in targets:
-              for pattern in (BRANCH_PATTERNS if (kind, config, target) == ("point", "abs-molar-K", targets[0]) else ("two",)):
+              for pattern in (BRANCH_PATTERNS if kind == "point" and (ctx.tier == "thorough" or (config, target) == ("abs-molar-K", targets[0])) else ("two",)):
                 rt.branch_pattern = pattern
                 for mp in ((True, False) if (kind, config, target) == ("base", "abs-molar-K", targets[0]) else (True,)):
                     res = rt.roundtrip(w, r, kind, config, target, path_ext=ext, material_props=mp)
